@@ -78,6 +78,17 @@ def cases(tier, rng):
         for k in range(rng.randint(5, 10)):
             steps.append(frame(raw(pads=[pad(p, [0] if rng.random() < .6 else [], [(0, rng.choice([F(1, 2), F(-1), F(0)]))]) for p in range(3)]), rand_dt(rng)))
         yield (scenario([ex], ents3, cfg, steps), 'per-entity-gamepads-consuming')
+    # holders arranged in an entity hierarchy (the harness makes entity 10 + s a child of entity s): a parent that holds
+    # nothing, a parent that holds the same shared context, a parent with its own exclusive instance - events must
+    # not travel along the hierarchy
+    for _ in range(300 if tier == 'thorough' else 40):
+        menu = pick_menu(rng, 2)
+        hents = [0, 10, 1, 11]
+        L = rng.randint(5, 9)
+        init = {0: [c for c in menu if rng.random() < .4], 10: [c for c in menu if rng.random() < .9],
+                1: [c for c in menu if rng.random() < .4], 11: [c for c in menu if rng.random() < .9]}
+        plan = random_plan(rng, menu, hents, L, rng.randint(0, 2))
+        yield (build_scenario(rng, menu, hents, plan, L, init, cfg=per_entity_cfg(rng, menu, hents, L)), 'hierarchy')
     for _ in range(1500 if tier == 'thorough' else 200):
         menu = pick_menu(rng, rng.randint(2, 3))
         ents = [0, 1, 2]
@@ -92,7 +103,7 @@ def nontrivial(case, out):
 STAGES = [dict(name='fanout', mode='app', coq='Check.C14c', cases=cases, nontrivial=nontrivial, shard=25,
                exhaustive={'thorough': False, 'quick': True},
                rule='an exclusive and a shared context type side by side, three entities; exclusive instances are driven by entity-specific scripted states, the shared one by one script; '
-                    'every single join/leave (insert/remove x entity x type) after frames 1, 2, 4 (quick; ordered pairs, sampled to 1500, in thorough) and random histories of 0-6 ops over 6-16 frames; exclusive instances tied to different gamepads (or unrestricted) next to a shared context, three gamepads with independent button/axis activity, a rebuild in the middle; the same with consuming actions on every instance and several gamepads active at once; '
+                    'every single join/leave (insert/remove x entity x type) after frames 1, 2, 4 (quick; ordered pairs, sampled to 1500, in thorough) and random histories of 0-6 ops over 6-16 frames; exclusive instances tied to different gamepads (or unrestricted) next to a shared context, three gamepads with independent button/axis activity, a rebuild in the middle; the same with consuming actions on every instance and several gamepads active at once; holders that are parents / children of each other in the entity hierarchy (a parent holding nothing, the same shared context, or its own exclusive instance); '
                     'non-trivial = some event is delivered to the second or third entity; distinct = distinct scenario text')]
 CLAUSES = {1: 'an entity that did not hold the context at evaluation time received one of its events', 2: 'holders of a shared context did not receive identical event lists', 5: 'an exclusive instance does not follow the configuration of its own entity (state differs from what its own scripted condition says for the instance\'s age)',
            3: 'the events an exclusive owner received are not those of its own instance', 4: 'a binding of a per-entity instance did not read its own device (instances with different gamepads are not independent)', 6: 'with consuming actions: a read of a per-entity instance differs from the raw input of its own device although nothing related (same device, or an unrestricted instance) was consumed before it - or was not hidden although something was', 8: 'panic', 9: 'malformed trace', 10: 'panic'}
